@@ -166,6 +166,44 @@ def enumerate_faults(ws, rng):
                                   [["set", b1 + ["hi_data"], m["data"]["hi_data"] + [2.5]], ["set", b1 + ["lo_data"], m["data"]["lo_data"] + [1.5]],
                                    ["set", b2 + ["hi_data"], m2["data"]["hi_data"][:-1]], ["set", b2 + ["lo_data"], m2["data"]["lo_data"][:-1]]])
                                 out[-1]["parts"] = [{"cls": "moddata_len", "variant": "histosys_both_longer"}, {"cls": "moddata_len", "variant": "histosys_both_shorter"}]
+    # compensating pairs of sample lengths: one sample name in two channels, k entries too many in one channel and k too few
+    # in the other (total length over all channels is right); with and without the sample's own bin-wise modifier data
+    # resized along (a sample that is 'consistently' of the wrong length)
+    def _resized(m, delta):
+        d = m["data"]
+        if m["type"] == "histosys":
+            f = (lambda v: v + [2.5] * delta) if delta > 0 else (lambda v: v[:delta])
+            return {"hi_data": f(d["hi_data"]), "lo_data": f(d["lo_data"])}
+        if m["type"] in ("shapesys", "staterror"):
+            return d + [0.7] * delta if delta > 0 else d[:delta]
+        return d
+
+    for ci, c in enumerate(chans):
+        for cj, c2 in enumerate(chans):
+            if ci == cj or len(c["samples"]) < 2 or len(c2["samples"]) < 2:
+                continue   # the only sample of a channel defines its bin count: changing its length is not a fault
+            for si, s in enumerate(c["samples"]):
+                for sj, s2 in enumerate(c2["samples"]):
+                    if s["name"] != s2["name"]:
+                        continue
+                    for k in (1, 2):
+                        if nb[cj] <= k:
+                            continue
+                        for resize in (False, True):
+                            ed = [["set", ["channels", ci, "samples", si, "data"], s["data"] + [3.5] * k],
+                                  ["set", ["channels", cj, "samples", sj, "data"], s2["data"][:-k]]]
+                            if resize:
+                                for mi, m in enumerate(s["modifiers"]):
+                                    if m["type"] in BINWISE:
+                                        ed.append(["set", ["channels", ci, "samples", si, "modifiers", mi, "data"], _resized(m, k)])
+                                for mj, m2 in enumerate(s2["modifiers"]):
+                                    if m2["type"] in BINWISE:
+                                        ed.append(["set", ["channels", cj, "samples", sj, "modifiers", mj, "data"], _resized(m2, -k)])
+                                if len(ed) == 2:
+                                    continue
+                            F("pair", "sample_len+sample_len", [[ci, si], [cj, sj]], ed)
+                            out[-1]["parts"] = [{"cls": "sample_len", "variant": "longer_first" if si == 0 else "longer"},
+                                                {"cls": "sample_len", "variant": "shorter_first" if sj == 0 else "shorter"}]
     # binwise_shared: one bin-wise name on places with different bin counts
     for ci, c in enumerate(chans):
         for cj, c2 in enumerate(chans):
